@@ -116,7 +116,21 @@ def run_qap(k, prog):
     P = be.get_modulus()
     opt = be.options
     obs = []
-    prog(k, be)
+    # observation point (no source edit): what each I/O block was asked to list, and what it lists
+    declared = []
+    orig_declare = be.vc_declare_block
+
+    def recording_declare(bn, vcs, rnd1=None):
+        vcs = list(vcs)
+        ctx = be.vc_ctx
+        out = orig_declare(bn, vcs, rnd1)
+        declared.append((ctx, bn, [list(x.lc.sig) for x in vcs], [list(y.lc.sig) for y in out]))
+        return out
+    be.vc_declare_block = recording_declare
+    try:
+        prog(k, be)
+    finally:
+        be.vc_declare_block = orig_declare
     reported = None
     try:
         be.prove()               # runs qapsplit, then the (failing) tools
@@ -217,6 +231,29 @@ def run_qap(k, prog):
                         obs.append(("glue %d pairs equal values (%s, %s)" % (nglue, wa, wb), ("eq", wires[wa], wires[wb])))
                     else:
                         obs.append(("glue %d: wires %s/%s have values" % (nglue, wa, wb), False))
+    # every block entry is the wire of the value it stands for, or a fresh wire tied to that value by a linear equation
+    lins = []
+    for r in recs:
+        terms = r[1] if r[0] == "lin" else (r[3] if (r[0] == "mul" and (not r[1] or not r[2])) else None)   # 0 * 0 = C is linear too
+        if terms is not None:
+            d = {}
+            for c, w in terms:
+                d[w] = (d.get(w, 0) + c) % P
+            lins.append({w: c for w, c in d.items() if c})
+    for ctx, bn, ins_, outs in declared:
+        for i, (a, b) in enumerate(zip(ins_, outs)):
+            single = len(b) == 1 and b[0][0] == 1
+            same = single and a == b
+            tied = False
+            if single and not same:
+                want = {}
+                for c, w in a:
+                    want[w] = (want.get(w, 0) + c) % P
+                want[b[0][1]] = (want.get(b[0][1], 0) - 1) % P
+                want = {w: c for w, c in want.items() if c}
+                neg = {w: (-c) % P for w, c in want.items()}
+                tied = any(l == want or l == neg for l in lins)
+            obs.append(("block %s/%s entry %d is the value's own wire or a wire tied to it by an equation" % (ctx, bn, i), same or tied))
     exp_glue = getattr(prog, "expected_glue", None)
     if exp_glue is not None:
         sizes = sorted(len(blocks.get((r[1], r[2]), [])) for r in recs if r[0] == "glue")
@@ -356,7 +393,42 @@ p_pub_inside_call.expected_glue = [2, 2]
 p_pub_inside_call.expected_pubs = 6
 
 
-PROGRAMS = dict(inconsistent_even=(p_inconsistent_even, ("x",)), inconsistent_extra=(p_inconsistent_extra, ("x",)),
+def p_similar_names(k, be):
+    """two different functions whose names differ only in punctuation / case: each keeps its own equation file"""
+    @be.subqap("step.2")
+    def f1(a):
+        return a * a + 1
+
+    @be.subqap("step_2")
+    def f2(a):
+        return (a * a) * a
+
+    @be.subqap("Step_2")
+    def f3(a):
+        return a * 5 * a
+    x = k.S("x")
+    (f1(x) + f2(x) + f3(x) + f1(x + 1)).val()
+p_similar_names.expected_glue = [2, 2, 2, 2]
+
+
+def p_repeated_wire(k, be):
+    """the same wire in two block positions (f(w, w)), a function returning an argument unchanged and a value twice"""
+    @be.subqap("mix")
+    def mix(a, b):
+        return [a * b + 1, a, a * b + 1]
+
+    @be.subqap("dup")
+    def dup(a):
+        s = a * a
+        return (s, s)
+    x = k.S("x")
+    r = mix(x, x)
+    d = dup(r[1])
+    (r[0] + r[2] + d[0] * d[1]).val()
+p_repeated_wire.expected_glue = [3, 5]
+
+
+PROGRAMS = dict(repeated_wire=(p_repeated_wire, ("x",)), similar_names=(p_similar_names, ("x",)), inconsistent_even=(p_inconsistent_even, ("x",)), inconsistent_extra=(p_inconsistent_extra, ("x",)),
                 pub_around_call=(p_pub_around_call, ("x", "y")), pub_inside_call=(p_pub_inside_call, ("x",)),
                 scaled=(p_scaled_result, ("x",)), inconsistent=(p_inconsistent, ("x",)), main=(p_main, ("x", "y")), call1=(p_call1, ("x",)), call2=(p_call2, ("x", "y")),
                 call3_list=(p_call3_list, ("x", "y")), nested=(p_nested, ("x",)))
